@@ -11,6 +11,10 @@ mod helpers_content;
 #[cfg(test)]
 mod helpers_test;
 
+// verification hook: only compiled with `--cfg zeep_verif` (see /verif/MANIFEST.json hooks)
+#[cfg(zeep_verif)]
+mod verif_dump;
+
 use crate::model::doc::RustDocument;
 use roxmltree::Node;
 
